@@ -314,6 +314,8 @@ def run_impl(c: dict, inp: dict | None = None) -> dict:
             a, b = arr, by
         else:
             a = arr if c.get("extra") == "npvalues" else da.from_array(arr, chunks=inp["chunks"])
+            if c.get("extra") == "diffchunks":
+                a = da.from_array(arr, chunks=-1)       # one block; the (lazy) labels keep the layout's finer chunks
             if c.get("extra") == "misaligned":
                 b = da.from_array(by, chunks=-1) if c["bydask"] else by
             else:
@@ -503,6 +505,9 @@ def model_line(c: dict, inp: dict, plan: dict) -> str:
     issorted = bool(plan.get("codes_sorted", False))      # `_issorted` of the integer codes `_choose_engine` received
     pref = plan.get("preferred") or "map-reduce"
     nb = plan.get("numblocks_axis")
+    if c.get("extra") == "diffchunks":
+        # values in one block, labels chunked: flox unifies the chunks inside dask_groupby_agg, the blocks are the labels'
+        nb = [len(ch) for ch in inp["lchunks"]][-nax:] if nax <= by.ndim else None
     if nb is None:
         nchunks = [len(ch) for ch in inp["chunks"]][-nax:] if nax <= arr.ndim else []
     else:
